@@ -77,7 +77,9 @@ def parse_unit(path, defines=()):
         return open(os.path.join(os.path.dirname(path), m.group(1))).read()
     for _ in range(4):
         raw = re.sub(r'(?m)^#!\s*include\s+(\S+)\s*$', inc, raw)
-    text = preprocess(raw, set(defines))
+    defines = set(defines) | set(re.findall(r'(?m)^#!\s*define\s+(\w+)\s*$', raw))
+    raw = re.sub(r'(?m)^#!\s*define\s+\w+\s*$', '', raw)
+    text = preprocess(raw, defines)
     unit = {'name': None, 'props': [], 'prelude': [], 'sources': {}, 'opts': set(), 'parts': [], 'rules': []}
     cur = None      # current part
     sub = None      # current sub-section of a fn part
@@ -339,6 +341,8 @@ def build_fn(part, sf, unit, opts, canary=None):
     bm = mask(body2)
     inserts = []  # (offset in body2, text, meta, order)
     loops = find_loops(bm, 1, len(bm))
+    if kv.get('assumed'):
+        part = dict(part, loops={}, ats=[])   # nothing is inserted into a stub body
     for n, lp in part['loops'].items():
         if n < 1 or n > len(loops):
             raise LostAnchor('fn %s: loop %d not found (%d loops)' % (part['qual'], n, len(loops)))
@@ -579,6 +583,8 @@ def build(unit_path, out_path, defines=(), canary=None):
     for p in unit['prelude']:
         segs.append(Seg(open(os.path.join(HERE, 'prelude', p)).read() + '\n', None, {'section': 'prelude', 'prelude': p}))
     fns, items, lemmas = [], [], []
+    seen_items = set()
+    seen_fns = set()
     for part in unit['parts']:
         if part['kind'] == 'raw':
             txt = '\n'.join(part['text']) + '\n'
@@ -589,10 +595,17 @@ def build(unit_path, out_path, defines=(), canary=None):
                     continue
                 lemmas.append(m.group(1))
         elif part['kind'] == 'item':
+            key = (part['ikind'], part['name'])
+            if key in seen_items:
+                continue      # the same item requested by two includes
+            seen_items.add(key)
             s, info = build_item(part, sources[part['alias']], opts)
             segs += s
             items.append(info)
         elif part['kind'] == 'fn':
+            if (part['alias'], part['qual']) in seen_fns:
+                continue
+            seen_fns.add((part['alias'], part['qual']))
             s, info = build_fn(part, sources[part['alias']], unit, opts, canary)
             segs += s
             fns.append(info)
